@@ -395,6 +395,34 @@ fn main() {
             s.count(&format!("ssi.{},{}", p.0, p.1));
         }
     }
+    // many listings of the same diagram: the symmetric builder chooses its half-diagram from the order in which crossings are listed;
+    // every listing must be accepted and give the same involutive homology (library against library; the cone reference is
+    // compared on the variants above)
+    {
+        let mut ks: Vec<&str> = NAMES.iter().cloned().filter(|n| InvLink::load(n).map(|l| l.link().crossing_num() >= 5 && l.link().crossing_num() <= ssi_max).unwrap_or(false)).collect();
+        r.shuffle(&mut ks);
+        // prefer the diagrams with most crossings (more off-axis crossings to cluster)
+        ks.sort_by_key(|n| std::cmp::Reverse(InvLink::load(n).map(|l| l.link().crossing_num()).unwrap_or(0)));
+        ks.truncate(if thorough { 24 } else { 14 });
+        for name in ks {
+            let Ok(l) = InvLink::load(name) else { continue };
+            let table = |il: &InvLink| -> Option<String> {
+                let il = il.clone();
+                guard_timeout(120, move || { let kh = KhIHomology::<FF2>::new(&il, &FF2::from(1i64), &FF2::from(0i64), false); kh.support().map(|i| format!("{}:{}", i, kh.get(i).rank())).collect::<Vec<_>>().join(" ") }).flatten()
+            };
+            let Some(base) = table(&l) else { s.oracle(false, "the involutive homology of a table diagram is computed without panic", name, "panic/timeout"); continue };
+            for j in 0..(if thorough { 40 } else { 12 }) {
+                let Some(x) = guard(|| reordered(&mut r.fork(), &l)) else { s.oracle(false, "a table code with its crossings listed in another order is accepted", name, "panic"); continue };
+                let vn = format!("{} listing#{} {}", name, j, link_txt(x.link()));
+                match table(&x) {
+                    Some(t) => s.oracle(t == base, "the involutive homology does not depend on the order in which crossings are listed", &vn, &format!("{} vs {}", base, t)),
+                    None => s.oracle(false, "the involutive complex of a strongly invertible diagram is built without panic for every listing of its crossings", &vn, "panic/timeout"),
+                }
+                s.count("relisting");
+            }
+            s.eval_only(&format!("relistings of {}", name), true);
+        }
+    }
     // user codes with the symmetric numbering whose two invariants DIFFER (every table entry has s0 = s1, which hides any
     // confusion between the two classes): 9_46 from the repository's own test; each theory on its own terms
     for (nm, code) in [("9_46-user-code", vec![[18usize,8,1,7],[13,6,14,7],[12,2,13,1],[8,18,9,17],[5,14,6,15],[2,12,3,11],[16,10,17,9],[15,4,16,5],[10,4,11,3]])] {
